@@ -97,7 +97,9 @@ def pending_loops(model, b):
     for nbb, nt in b.calls():
         if nt["callee"].get("path") != "std::iter::Iterator::next":
             continue
-        flds = {r[2][0] for r in b.roots(b.arg_origin(nbb, 0)) if r[0] == "param" and r[1] == 1 and r[2]}
+        # the set the iterator was made from (receiver chain), not everything its elements may depend on
+        rr = b.receiver_root(b.arg_origin(nbb, 0))
+        flds = {rr[2][0]} if rr[0] == "param" and rr[1] == 1 and rr[2] else set()
         flds &= {"raised", "killed"}
         if len(flds) != 1:
             continue
